@@ -7,7 +7,6 @@ import (
 	"crypto/sha256"
 	"encoding/binary"
 	"fmt"
-	"math/bits"
 	"sort"
 
 	"go.sia.tech/core/consensus"
@@ -22,6 +21,7 @@ type Node struct {
 	U     *univ.Universe
 	DB    *recdb.DB
 	Store *chain.DBStore
+	Obs   *ObsStore
 	CM    *chain.Manager
 }
 
@@ -46,7 +46,10 @@ func TryOpen(u *univ.Universe, db *recdb.DB) (*Node, error) {
 	if err != nil {
 		return nil, err
 	}
-	return &Node{U: u, DB: db, Store: store, CM: chain.NewManager(store, tip)}, nil
+	n := &Node{U: u, DB: db, Store: store}
+	n.Obs = &ObsStore{DBStore: store, n: n}
+	n.CM = chain.NewManager(n.Obs, tip)
+	return n, nil
 }
 
 // Enc encodes v canonically.
@@ -130,26 +133,45 @@ func (n *Node) CanonDump() (map[string]string, error) {
 			if !live || (b == "FileContracts" && len(k) == 8) {
 				continue
 			}
-			// decode the leaf index: every element encoding ends its StateElement with the leaf index first.
-			leaf, ok := leafIndexOf(b, v)
-			if !ok {
-				return nil, fmt.Errorf("cannot decode element %s/%x", b, k)
+			// the element with the Merkle proof the store hands out for it, obtained through the
+			// store's own API (SupplementTipTransaction), plus a check against the tip accumulator
+			var txn types.Transaction
+			switch b {
+			case "SiacoinElements":
+				txn.SiacoinInputs = []types.SiacoinInput{{ParentID: types.SiacoinOutputID([]byte(k))}}
+			case "SiafundElements":
+				txn.SiafundInputs = []types.SiafundInput{{ParentID: types.SiafundOutputID([]byte(k))}}
+			default:
+				txn.FileContractRevisions = []types.FileContractRevision{{ParentID: types.FileContractID([]byte(k))}}
 			}
-			if leaf >= numLeaves {
-				out[b+"/"+fmt.Sprintf("%x", k)+"/proof"] = fmt.Sprintf("leaf %d beyond accumulator %d", leaf, numLeaves)
-				continue
-			}
-			var proof []byte
-			for i := 0; i < bits.Len64(leaf^numLeaves)-1; i++ {
-				node, ok := cur["Tree"][treeKey(uint64(i), (leaf>>i)^1)]
-				if !ok {
-					proof = append(proof, []byte("MISSING")...)
+			served, perr := func() (s string, err error) {
+				defer func() {
+					if r := recover(); r != nil {
+						err = fmt.Errorf("SupplementTipTransaction panicked: %v", r)
+					}
+				}()
+				ts := n.Store.SupplementTipTransaction(txn)
+				var v2 types.V2Transaction
+				for _, e := range ts.SiacoinInputs {
+					v2.SiacoinInputs = append(v2.SiacoinInputs, types.V2SiacoinInput{Parent: e.Copy()})
 				}
-				proof = append(proof, node...)
+				for _, e := range ts.SiafundInputs {
+					v2.SiafundInputs = append(v2.SiafundInputs, types.V2SiafundInput{Parent: e.Copy()})
+				}
+				if len(v2.SiacoinInputs)+len(v2.SiafundInputs) > 0 {
+					if err := tipState.Elements.ValidateTransactionElements(v2); err != nil {
+						return "", fmt.Errorf("served proof does not verify against the tip accumulator: %v", err)
+					}
+				}
+				return fmt.Sprintf("%x", Enc(ts)), nil
+			}()
+			if perr != nil {
+				return nil, fmt.Errorf("%s/%x: %v", b, k, perr)
 			}
-			out[b+"/"+fmt.Sprintf("%x", k)+"/proof"] = fmt.Sprintf("%x", proof)
+			out[b+"/"+fmt.Sprintf("%x", k)+"/served"] = served
 		}
 	}
+	_ = numLeaves
 	return out, nil
 }
 
